@@ -150,9 +150,8 @@ func (x *fx) replayParams() ([]rparam, string) {
 	if len(x.fn.FreeVars) > 0 {
 		return nil, "closure with captured variables"
 	}
-	if x.fn.Signature.Recv() != nil {
-		return nil, "method receiver cannot be built from a model"
-	}
+	// a method is replayable when its receiver is itself a replayable value
+	// (slice or pointer to array of scalars); it is then called as recv.M(args)
 	pkg := x.fn.Pkg
 	var tp *types.Package
 	if pkg != nil {
@@ -160,9 +159,31 @@ func (x *fx) replayParams() ([]rparam, string) {
 	} else if o := x.fn.Origin(); o != nil && o.Pkg != nil {
 		tp = o.Pkg.Pkg
 	}
+	type pv struct {
+		name string
+		t    types.Type
+	}
+	var pvs []pv
 	for _, p := range x.fn.Params {
-		rp := rparam{name: p.Name(), t: p.Type(), goType: goTypeString(p.Type(), tp)}
-		switch u := p.Type().Underlying().(type) {
+		pvs = append(pvs, pv{p.Name(), p.Type()})
+	}
+	if len(pvs) == 0 {
+		// a function without a Go body (assembly): parameters from the signature
+		if rv := x.fn.Signature.Recv(); rv != nil {
+			pvs = append(pvs, pv{rv.Name(), rv.Type()})
+		}
+		sp := x.fn.Signature.Params()
+		for k := 0; k < sp.Len(); k++ {
+			pvs = append(pvs, pv{sp.At(k).Name(), sp.At(k).Type()})
+		}
+	}
+	for _, p := range pvs {
+		p := struct {
+			n string
+			t types.Type
+		}{p.name, p.t}
+		rp := rparam{name: p.n, t: p.t, goType: goTypeString(p.t, tp)}
+		switch u := p.t.Underlying().(type) {
 		case *types.Basic:
 			switch {
 			case u.Info()&types.IsInteger != 0:
@@ -170,24 +191,24 @@ func (x *fx) replayParams() ([]rparam, string) {
 			case u.Info()&types.IsBoolean != 0:
 				rp.kind = "bool"
 			default:
-				return nil, "parameter " + p.Name() + " of type " + p.Type().String()
+				return nil, "parameter " + p.n + " of type " + p.t.String()
 			}
 		case *types.Slice:
 			if _, ok := isInt(u.Elem()); !ok && !isBool(u.Elem()) {
-				return nil, "parameter " + p.Name() + " of type " + p.Type().String()
+				return nil, "parameter " + p.n + " of type " + p.t.String()
 			}
 			rp.kind, rp.elem = "slice", u.Elem()
 		case *types.Pointer:
 			a, ok := u.Elem().Underlying().(*types.Array)
 			if !ok {
-				return nil, "parameter " + p.Name() + " of type " + p.Type().String()
+				return nil, "parameter " + p.n + " of type " + p.t.String()
 			}
 			if _, ok := isInt(a.Elem()); !ok {
-				return nil, "parameter " + p.Name() + " of type " + p.Type().String()
+				return nil, "parameter " + p.n + " of type " + p.t.String()
 			}
 			rp.kind, rp.elem, rp.n = "arrayptr", a.Elem(), a.Len()
 		default:
-			return nil, "parameter " + p.Name() + " of type " + p.Type().String()
+			return nil, "parameter " + p.n + " of type " + p.t.String()
 		}
 		out = append(out, rp)
 	}
@@ -452,7 +473,9 @@ func (gg *goGen) gen(e *Expr, bound map[string]bool, old bool) string {
 	case "index":
 		s := gg.gen(e.Args[0], bound, old)
 		i := gg.gen(e.Args[1], bound, old)
-		return wrapInt(s+"["+i+"]", gg.elemIsInt(e.Args[0]))
+		// total access: conditional expressions are evaluated eagerly in Go, so an
+		// index in the branch not taken must not panic
+		return wrapInt("verifAt("+s+"[:], int("+i+"))", gg.elemIsInt(e.Args[0]))
 	case "slice":
 		s := gg.gen(e.Args[0], bound, old) + "["
 		if e.Args[1] != nil {
@@ -652,6 +675,11 @@ func (g *Gen) replayOnRealCode(o *Oblig, work, repo, verif string) map[string]an
 	for _, cl := range x.c.Requires {
 		reqs = append(reqs, gg.gen(cl.E, map[string]bool{}, false))
 	}
+	if o.Kind == "bounded" {
+		for _, cl := range x.c.BoundedReq {
+			reqs = append(reqs, gg.gen(cl.E, map[string]bool{}, false))
+		}
+	}
 	if gg.err != nil {
 		return map[string]any{"replay_skipped": "precondition is not executable: " + gg.err.Error()}
 	}
@@ -698,7 +726,11 @@ func (g *Gen) replayOnRealCode(o *Oblig, work, repo, verif string) map[string]an
 	if seed == "" {
 		seed = "1"
 	}
-	cmdline := fmt.Sprintf("cd %s && ulimit -v 12000000 && VERIF_SEED=%s go test -overlay %s -v -vet=off -count=1 -timeout 120s -tags %s -run '^TestVerifReplay$' .", pkgDir, seed, ovFile, tags)
+	bounded := ""
+	if o.Kind == "bounded" {
+		bounded = "VERIF_BOUNDED=1 "
+	}
+	cmdline := fmt.Sprintf("cd %s && ulimit -v 12000000 && "+bounded+"VERIF_SEED=%s go test -overlay %s -v -vet=off -count=1 -timeout 120s -tags %s -run '^TestVerifReplay$' .", pkgDir, seed, ovFile, tags)
 	ctx, cancel := context.WithTimeout(context.Background(), 300*time.Second)
 	defer cancel()
 	cmd := exec.CommandContext(ctx, "bash", "-c", cmdline)
@@ -737,6 +769,7 @@ func genReplayTest(x *fx, ps []rparam, lits map[string]string, reqs, enss, label
 	}
 	fmt.Fprintf(&b, "package %s\n\nimport (\n\t\"fmt\"\n\t\"math/rand\"\n\t\"os\"\n\t\"strconv\"\n\t\"testing\"\n)\n\n", pkgName)
 	b.WriteString("func ite[T any](c bool, a, b T) T { if c { return a }; return b }\n")
+	b.WriteString("func verifAt[T any](s []T, i int) T { if i < 0 || i >= len(s) { var z T; return z }; return s[i] }\n")
 	b.WriteString("func sameSlice[T any](a, b []T) bool { if len(a) != len(b) { return false }; if len(a) == 0 { return true }; return &a[0] == &b[0] }\n\n")
 	// one evaluation of the executable contract
 	b.WriteString("func verifReplayOnce(")
@@ -777,6 +810,9 @@ func genReplayTest(x *fx, ps []rparam, lits map[string]string, reqs, enss, label
 		callArgs[len(callArgs)-1] += "..."
 	}
 	call := fname + "(" + strings.Join(callArgs, ", ") + ")"
+	if x.fn.Signature.Recv() != nil && len(callArgs) > 0 {
+		call = callArgs[0] + "." + x.fn.Name() + "(" + strings.Join(callArgs[1:], ", ") + ")"
+	}
 	if len(lhs) > 0 {
 		call = strings.Join(lhs, ", ") + " = " + call
 	}
@@ -798,6 +834,7 @@ func genReplayTest(x *fx, ps []rparam, lits map[string]string, reqs, enss, label
 }
 
 `)
+	b.WriteString("func verifLen(r *rand.Rand) int {\n\tif os.Getenv(\"VERIF_BOUNDED\") == \"\" {\n\t\treturn r.Intn(7)\n\t}\n\tl := []int{0, 1, 2, 3, 4, 5, 6, 7, 8, 9, 10, 11, 15, 16, 17, 23, 24, 25, 31, 32, 33, 47, 48, 49, 55, 56, 57, 63, 64, 65, 127, 128, 129, 239, 240, 241, 255, 256, 257}\n\treturn l[r.Intn(len(l))]\n}\n\n")
 	b.WriteString("func TestVerifReplay(t *testing.T) {\n")
 	if lits != nil {
 		b.WriteString("\t{\n")
@@ -827,7 +864,7 @@ func genReplayTest(x *fx, ps []rparam, lits map[string]string, reqs, enss, label
 		case "bool":
 			fmt.Fprintf(&b, "\t\t%s := r.Intn(2) == 0\n", p.name)
 		case "slice":
-			fmt.Fprintf(&b, "\t\t%s := make(%s, r.Intn(7), 8)\n", p.name, p.goType)
+			fmt.Fprintf(&b, "\t\t%s := make(%s, verifLen(r))\n", p.name, p.goType)
 			if isBool(p.elem) {
 				fmt.Fprintf(&b, "\t\tfor i := range %s { %s[i] = r.Intn(2) == 0 }\n", p.name, p.name)
 			} else {
@@ -892,4 +929,50 @@ func cmdReplay(args []string) int {
 	}
 	fmt.Println(rep["note"])
 	return 1
+}
+
+// boundedStandin runs the executable form of a contract against the build the
+// users run (default tags: the assembly kernels on amd64) over the seeded
+// boundary enumeration.  It is a bounded check, never counted as proved.
+func (g *Gen) boundedStandin(p *program, c *Contract, work, repo, verif string) (map[string]any, *Oblig) {
+	fn := p.fns[c.Pkg+"."+c.Name]
+	if fn == nil {
+		return map[string]any{"function": c.Pkg + "." + c.Name, "skipped": "function not present under tags " + p.tags}, nil
+	}
+	g.cur = p
+	cc := *c
+	cc.Tags = ""
+	x := newFx(g, fn, &cc, 2)
+	x.usedSpecs = map[string]bool{}
+	o := &Oblig{Fn: c.Pkg + "." + c.Name, Name: shortPkg(c.Pkg) + "." + c.Name + "#asm-conforms(bounded)", Kind: "bounded", Status: "unknown", fx: x,
+		Desc: "bounded conformance of the default-build implementation to the contract of its portable twin", Expect: "unsat"}
+	r := g.replayOnRealCode(o, work, repo, verif)
+	res := map[string]any{"function": c.Pkg + "." + c.Name, "build_tags": "verif (default build: assembly kernels where available)",
+		"domain": "slice lengths {0..11,15..17,23..25,31..33,47..49,55..57,63..65,127..129,239..241,255..257}, values from a boundary set and VERIF_SEED-seeded random fill"}
+	if r == nil {
+		res["skipped"] = "no executable contract"
+		return res, nil
+	}
+	out, _ := r["replay_output"].(string)
+	res["cases"] = 0
+	if i := strings.Index(out, "admissible inputs tried:"); i >= 0 {
+		var n int
+		fmt.Sscanf(out[i+len("admissible inputs tried:"):], "%d", &n)
+		res["cases"] = n
+	}
+	if s, ok := r["replay_skipped"].(string); ok && !strings.Contains(out, "REPLAY-RESULT") {
+		res["skipped"] = s
+		res["output"] = truncate(out, 800)
+		return res, nil
+	}
+	if b, _ := r["reproduced"].(bool); b {
+		o.Status = "failed"
+		o.Output = out
+		res["violated"] = true
+		res["output"] = truncate(out, 1200)
+		o.ReplayInfo = r
+		return res, o
+	}
+	res["violated"] = false
+	return res, nil
 }
